@@ -327,6 +327,51 @@ func main() {
          root='not a defect: the Go spec orders calls among themselves but not a plain variable read against a call.',
          safe='a call to anything with side effects is always a whole statement (r := f(args), args call-free); only '
               'side-effect-free functions appear inside expressions.'),
+    dict(id=21, kind='D', probe='probe:const_aliases_global_storage', fixed_by='033911b',
+         title='a string literal of NUL bytes is placed on top of the zero-initialised storage of a package-level array',
+         program="""package main
+
+var arr [70000]byte
+
+func main() {
+	s := \"""" + "\\x00" * 600 + """\"
+	for i := 0; i < len(arr); i++ {
+		arr[i] = 65
+	}
+	n := 0
+	for i := 0; i < len(s); i++ {
+		if s[i] != 0 {
+			n++
+		}
+	}
+	println(len(s), n)
+}
+""", wa='600 584', go='600 0',
+         root='wir/wat/data_seg.go DataSeg.Append de-duplicated constant bytes with bytes.Index over the whole data segment, '
+              'including ranges handed out by Alloc for mutable globals.',
+         safe='not generated (literals with NULs are rare); kept as a probe.'),
+    dict(id=22, kind='D', probe='probe:array_lit_over_nonzero', fixed_by='95753e8',
+         title='arr = [2]T{{A: 1}, {A: 2}} over a non-zero array keeps the old values of the fields the literal leaves out',
+         program="""package main
+
+type In struct{ A, B int32 }
+
+var garr [2]In
+
+func main() {
+	var arr [2]In
+	arr[0].B = 5
+	arr[1].B = 6
+	arr = [2]In{{A: 1}, {A: 2}}
+	println(arr[0].A, arr[0].B, arr[1].A, arr[1].B)
+	garr[0].B = 7
+	garr = [2]In{{A: 3}, {A: 4}}
+	println(garr[0].A, garr[0].B, garr[1].A, garr[1].B)
+}
+""", wa='1 5 2 6\n3 7 4 0', go='1 0 2 0\n3 0 4 0',
+         root='internal/ssa/builder.go compLit: the array branch assigned the elements with isZero=true although the destination '
+              'is existing storage (same code as upstream x/tools go/ssa).',
+         safe='not generated before; kept as a probe.'),
 ]
 
 OTHER_SURFACE_DIFFERENCES = [
